@@ -1368,7 +1368,30 @@ impl<'a, 'b> Gen<'a, 'b> {
                             index(index(nm(&h), callg("probe1", vec![num(1.0)])), callg("probe2", vec![num(1.0)]))
                         }
                     };
-                    let target = if self.t.bool(128) { index(prefix, callg("probe1", vec![s(&f)])) } else { field(prefix, &f) };
+                    let target = if self.t.bool(128) {
+                        let key = callg("probe1", vec![s(&f)]);
+                        // the key spelled as an interpolated string, a cast or in parentheses
+                        let key = match self.t.choose(if self.o.luau { 5 } else { 2 }) {
+                            0 => key,
+                            1 => paren(key),
+                            2 => {
+                                self.stat("compound_interpolated_key");
+                                Expr::Interp(vec![InterpSeg::Expr(key)])
+                            }
+                            3 => {
+                                self.stat("compound_interpolated_key");
+                                let (a, b) = f.split_at(f.len() / 2);
+                                Expr::Interp(vec![InterpSeg::Str(a.as_bytes().to_vec()), InterpSeg::Expr(callg("probe1", vec![s(b)]))])
+                            }
+                            _ => {
+                                let ty = self.ty_of(&Kind::Str);
+                                paren(Expr::Cast { expr: Box::new(key), ty: Box::new(ty) })
+                            }
+                        };
+                        index(prefix, key)
+                    } else {
+                        field(prefix, &f)
+                    };
                     let op = [BinOp::Add, BinOp::Sub, BinOp::Mul][self.t.choose(3)];
                     let value = self.e_num(d);
                     if let Some((h, init)) = holder {
